@@ -276,11 +276,15 @@ Fixpoint eval (fuel : nat) (vtbl tbl : list (N * rule)) (syms : list expr) (inp 
         | ELex _ x _ => do xv <- ev x; ErrExn EXN_SYMENGINE
         | _ => ErrExn EXN_SYMENGINE
         end
-    | RSymbol =>
-        match index_of syms e 0 with
-        | Some i => match nth_error inp i with Some v => Ok v | None => ErrOOB (N.of_nat i) (N.of_nat (length inp)) end
-        | None => match assoc extra e with Some v => Ok v | None => ErrExn EXN_SYMENGINE end
-        end
+    | RSymbol map_first =>
+        let from_inputs (k : res F) :=
+          match index_of syms e 0 with
+          | Some i => match nth_error inp i with Some v => Ok v | None => ErrOOB (N.of_nat i) (N.of_nat (length inp)) end
+          | None => k
+          end in
+        let from_map (k : res F) := match assoc extra e with Some v => Ok v | None => k end in
+        if map_first then from_map (from_inputs (ErrExn EXN_SYMENGINE))
+        else from_inputs (from_map (ErrExn EXN_SYMENGINE))
     | RInfty =>
         match e with
         | ENum (NInf d) =>
@@ -396,15 +400,15 @@ Fixpoint compile (fuel : nat) (vtbl tbl : list (N * rule)) (syms : list expr)
         | ELex _ x _ => do xk <- cp x; ErrExn EXN_SYMENGINE
         | _ => ErrExn EXN_SYMENGINE
         end
-    | RSymbol =>
-        match index_of syms e 0 with
-        | Some i => Ok (KIn i)
-        | None =>
-            match assoc cmap e with
-            | Some idx => if (idx <? bufsz)%nat then Ok (KSlot idx) else ErrOOB (N.of_nat idx) (N.of_nat bufsz)
-            | None => ErrExn EXN_SYMENGINE
-            end
-        end
+    | RSymbol map_first =>
+        let from_inputs (k : res clo) := match index_of syms e 0 with Some i => Ok (KIn i) | None => k end in
+        let from_map (k : res clo) :=
+          match assoc cmap e with
+          | Some idx => if (idx <? bufsz)%nat then Ok (KSlot idx) else ErrOOB (N.of_nat idx) (N.of_nat bufsz)
+          | None => k
+          end in
+        if map_first then from_map (from_inputs (ErrExn EXN_SYMENGINE))
+        else from_inputs (from_map (ErrExn EXN_SYMENGINE))
     | RInfty =>
         match e with
         | ENum (NInf d) =>
